@@ -28,6 +28,12 @@ void vs_move_steal(int t);                         /* a woken timed waiter past 
 void vs_move_clock(long long n);
 void vs_move_rot(int c);
 
+/* Thread::start with a failing pthread_create: while the flag is up, the next wrapped pthread_create of a virtual thread writes a
+   stale handle (of a thread that has exited and been joined - what glibc leaves there) into its output parameter and returns
+   EAGAIN, without a scheduling point (model: script op ThStartF, a thread-local step) */
+void vs_fail_next_create(int on);
+int vs_stale_joins(void);                          /* number of pthread_join calls of virtual threads on such a stale handle */
+
 /* called by a scenario thread between two library calls: gives the baton back, pending = idle */
 void vs_idle(void);
 int vs_self(void);
